@@ -155,8 +155,6 @@ fn occurrences(ts: &TensorStore) -> BTreeMap<String, i64> {
 struct OpenWriter {
     w: BlobWriter,
     bytes: Vec<u8>,
-    /// collectors that removed a chunk this writer had already stored
-    lost_to: BTreeSet<&'static str>,
 }
 
 /// The real store plus everything the oracles need to remember.
@@ -178,8 +176,16 @@ struct Real {
     damaged: bool,
     /// a writer was dropped / is open: refs may exceed occurrences
     slack: bool,
-    /// a collector removed a chunk an open writer had stored (site of the first such collector)
-    tainted: Option<&'static str>,
+    /// Reference accounting of the sequential streams (one thread: there is no concurrent refcount update).
+    /// demand(k) = listings of k by finished artifacts + occurrences of k in the chunk lists of OPEN writers;
+    /// deficit(k) = demand(k) - `_refs` (0 for a missing record), when positive.
+    /// `excused[k] = (e, site)`: the part of the deficit that `site` (full_gc | repair) caused ITSELF by removing /
+    /// resetting the record while a writer that had written k was open — the stated cause of the known findings
+    /// tensor_blob.full_gc/live_chunk_collected and tensor_blob.repair/live_chunk_collected; never more than the
+    /// open writers' holds at that moment, never more than the current deficit.
+    excused: BTreeMap<String, (i64, &'static str)>,
+    /// the part of the deficit that was reported under a class of its own (not excused by a known finding)
+    unexcused: BTreeMap<String, i64>,
 }
 
 fn cfg(chunk: usize, max: Option<usize>) -> BlobConfig {
@@ -209,7 +215,8 @@ impl Real {
             expect: BTreeMap::new(),
             damaged: false,
             slack: false,
-            tainted: None,
+            excused: BTreeMap::new(),
+            unexcused: BTreeMap::new(),
         }
     }
     fn uuid_of(&self, a: u32) -> String {
@@ -290,6 +297,39 @@ impl Real {
     fn inflight_keys(&self, bytes: &[u8]) -> Vec<String> {
         let full = bytes.len() / self.chunk;
         (0..full).map(|i| format!("{CHUNK_PREFIX}{}", compute_hash(&bytes[i * self.chunk..(i + 1) * self.chunk]))).collect()
+    }
+    /// references the OPEN writers must hold: one per occurrence of a key in a writer's chunk list
+    fn holds(&self) -> BTreeMap<String, i64> {
+        let mut m = BTreeMap::new();
+        for ow in self.writers.values() {
+            for k in self.inflight_keys(&ow.bytes) {
+                *m.entry(k).or_insert(0) += 1;
+            }
+        }
+        m
+    }
+    /// `_refs` of every chunk record that exists
+    fn refs_now(&self) -> BTreeMap<String, i64> {
+        self.ts.scan(CHUNK_PREFIX).into_iter().filter_map(|k| self.ts.get(&k).ok().and_then(|t| t_int(&t, "_refs")).map(|x| (k, x))).collect()
+    }
+    /// Class of "artifact `id` exists, was never deleted and does not read back as written": a known
+    /// `<site>/live_chunk_collected` only if EVERY chunk of its list that is wrong is a missing record whose whole
+    /// deficit is excused by `site` (full_gc | repair removed / reset it while a writer that had written it was open);
+    /// anything else keeps `fallback`, a class of its own.
+    fn unreadable_class(&self, id: &str, fallback: &str) -> String {
+        let keys = self.ts.get(&format!("{META_PREFIX}{id}")).ok().and_then(|t| t_ptrs(&t, "_chunks")).unwrap_or_default();
+        let bad: Vec<&String> = keys
+            .iter()
+            .filter(|k| match self.ts.get(k) {
+                Ok(rec) => t_bytes(&rec, "_data").as_ref() != self.known.get(*k),
+                Err(_) => true,
+            })
+            .collect();
+        let excused = |k: &String| !self.ts.exists(k) && self.unexcused.get(k).copied().unwrap_or(0) == 0 && self.excused.get(k).map(|x| x.0 > 0).unwrap_or(false);
+        match bad.first() {
+            Some(k0) if bad.iter().all(|k| excused(k)) => format!("tensor_blob.{}/live_chunk_collected", self.excused[*k0].1),
+            _ => fallback.to_string(),
+        }
     }
 }
 
@@ -383,8 +423,11 @@ fn run_case(m: &mut Model, rep: &mut Report, stream: &str, chunk: usize, max: Op
         let occ_before = occurrences(&r.ts);
         let present_before: BTreeSet<String> = r.ts.scan(CHUNK_PREFIX).into_iter().collect();
         let refs_before: BTreeMap<String, i64> = present_before.iter().filter_map(|k| r.ts.get(k).ok().and_then(|t| t_int(&t, "_refs")).map(|x| (k.clone(), x))).collect();
+        let holds_before = r.holds();
         let mut collector: Option<&'static str> = None;
         let mut wrote_now: Option<(usize, Vec<u8>)> = None;
+        // a writer that stayed open across other operations has just finished successfully: (artifact, bytes handed to it)
+        let mut finished_now: Option<(usize, Vec<u8>)> = None;
         let (line, imp): (String, String) = match op {
             Op::Put(d) => {
                 let res = bo(r.blob.put("f", d, PutOptions::default()));
@@ -427,7 +470,7 @@ fn run_case(m: &mut Model, rep: &mut Report, stream: &str, chunk: usize, max: Op
             }
             Op::WOpen(wid) => {
                 let w = bo(r.blob.writer("f", PutOptions::default())).unwrap();
-                r.writers.insert(*wid, OpenWriter { w, bytes: vec![], lost_to: BTreeSet::new() });
+                r.writers.insert(*wid, OpenWriter { w, bytes: vec![] });
                 r.slack = true;
                 (format!("wopen {wid}"), "ok".into())
             }
@@ -452,18 +495,9 @@ fn run_case(m: &mut Model, rep: &mut Report, stream: &str, chunk: usize, max: Op
                     Some(ow) => (line, match bo(ow.w.finish()) {
                         Ok(id) => {
                             let ix = r.alpha(&id);
-                            // oracle O1 for a streamed artifact that overlapped other operations
-                            let back = bo(r.blob.get(&id));
-                            if !r.damaged && back.as_ref().ok() != Some(&ow.bytes) {
-                                let site = ow.lost_to.iter().next().copied().unwrap_or("writer");
-                                let class = format!("tensor_blob.{site}/live_chunk_collected");
-                                vio(rp!(), &class, "an artifact whose streaming writer was open while the collector ran finished successfully but cannot be read back: the collector removed chunks the writer had already stored", input());
-                                fail(&mut out, "violation", &class);
-                                r.expect.insert(ix, None);
-                                r.damaged = true;
-                            } else {
-                                wrote_now = Some((ix, ow.bytes.clone()));
-                            }
+                            // oracle O1 for a streamed artifact that overlapped other operations: judged below, once the
+                            // reference accounting of this step is done
+                            finished_now = Some((ix, ow.bytes.clone()));
                             format!("ok a{ix}")
                         }
                         Err(e) => err_class(&e).to_string(),
@@ -663,10 +697,21 @@ fn run_case(m: &mut Model, rep: &mut Report, stream: &str, chunk: usize, max: Op
                     .rt
                     .block_on(BlobStore::new(r.ts.clone(), cfg(chunk, max).with_gc_interval(Duration::from_millis(1)).with_gc_min_age(min_age_for(thr))))
                     .unwrap();
+                let ts2 = r.ts.clone();
                 r.rt.block_on(async {
                     bs.start().await.unwrap();
                     bs.start().await.unwrap(); // second start is a no-op
-                    tokio::time::sleep(Duration::from_millis(4)).await;
+                    // wait for a tick of the task (on a loaded machine the first tick can take longer than a few ms): until no
+                    // record is left that a cycle with this threshold takes (`_refs == 0`, stamped at or before `thr`)
+                    for _ in 0..400 {
+                        tokio::time::sleep(Duration::from_millis(4)).await;
+                        let pending = ts2.scan(CHUNK_PREFIX).iter().any(|k| {
+                            ts2.get(k).map(|t| t_int(&t, "_refs") == Some(0) && t_int(&t, "_created").unwrap_or(i64::MAX) <= thr as i64 * LT).unwrap_or(false)
+                        });
+                        if !pending {
+                            break;
+                        }
+                    }
                     bs.shutdown().await.unwrap();
                 });
                 // the cycles' statistics are dropped by the task: only the effect is compared
@@ -773,6 +818,113 @@ fn run_case(m: &mut Model, rep: &mut Report, stream: &str, chunk: usize, max: Op
             fail(&mut out, "disagree", "image");
         }
         // ---- oracles on the implementation's own outputs
+        // Reference accounting (O6, O2): every chunk written by an open writer or listed by a finished artifact exists and
+        // has `_refs` >= listings + writer holds, after EVERY operation.  This stream is one thread: a deficit has no
+        // concurrent cause.  The only excuses are the two known findings, and only for what they state: full_gc() / repair()
+        // ITSELF removed or lowered the record of a chunk that an OPEN writer had written, by at most that writer's holds.
+        let present_after: BTreeSet<String> = r.ts.scan(CHUNK_PREFIX).into_iter().collect();
+        if !r.damaged {
+            let occ_after = occurrences(&r.ts);
+            let holds_after = r.holds();
+            let refs_after = r.refs_now();
+            let deficit = |k: &String| -> i64 {
+                (occ_after.get(k).copied().unwrap_or(0) + holds_after.get(k).copied().unwrap_or(0) - refs_after.get(k).copied().unwrap_or(0)).max(0)
+            };
+            // 1. the stated cause of the known findings, observed on this very operation
+            if let Some(site @ ("full_gc" | "repair")) = collector {
+                for (k, hb) in &holds_before {
+                    let touched = present_before.contains(k) && (!present_after.contains(k) || refs_after.get(k) < refs_before.get(k));
+                    if touched {
+                        let e = deficit(k).min(*hb);
+                        if e > 0 {
+                            r.excused.insert(k.clone(), (e, site));
+                        }
+                        if !quiet {
+                            rep.hit(&format!("collector.{site}.removed_open_writer_chunk"));
+                        }
+                    }
+                }
+            }
+            // 2. excuses never exceed the deficit that is left; 3. what is not excused is a failure of THIS operation
+            let mut keys: BTreeSet<String> = occ_after.keys().chain(holds_after.keys()).cloned().collect();
+            keys.extend(r.excused.keys().cloned());
+            keys.extend(r.unexcused.keys().cloned());
+            let mut reported_now: BTreeSet<String> = BTreeSet::new();
+            for k in &keys {
+                let d = deficit(k);
+                let e = r.excused.get(k).map(|x| x.0.min(d)).unwrap_or(0);
+                if e > 0 {
+                    r.excused.get_mut(k).unwrap().0 = e;
+                } else {
+                    r.excused.remove(k);
+                }
+                let u = r.unexcused.get(k).copied().unwrap_or(0).min(d - e);
+                if d > e + u {
+                    let removed = present_before.contains(k) && !present_after.contains(k);
+                    let class = match collector {
+                        Some("gc") if removed => "tensor_blob.gc/referenced_chunk_collected_sequentially".to_string(),
+                        Some("gc") => "tensor_blob.gc/refs_below_references".to_string(),
+                        Some(site) => format!("tensor_blob.{site}/listed_chunk_damaged"),
+                        None if matches!(tag.as_str(), "put" | "stream" | "abandon" | "wwrite" | "wfinish") => "tensor_blob.store_chunk/reference_not_taken".to_string(),
+                        None => format!("tensor_blob.{tag}/refs_below_references"),
+                    };
+                    vio(rp!(), &class, "sequential history (one thread, no concurrent refcount update): after this operation a chunk's `_refs` (0 if the record is gone) is below its listings by finished artifacts plus its occurrences in the chunk lists of open writers, and no full_gc()/repair() acting on a chunk of an open writer accounts for it", input());
+                    fail(&mut out, "violation", &class);
+                    reported_now.insert(k.clone());
+                }
+                if d - e > 0 {
+                    r.unexcused.insert(k.clone(), d - e);
+                } else {
+                    r.unexcused.remove(k);
+                }
+            }
+            // 4. incremental gc() removing a record that is still demanded (its `_refs` was already 0)
+            if collector == Some("gc") {
+                for k in present_before.difference(&present_after) {
+                    let listed = occ_before.get(k).copied().unwrap_or(0);
+                    let demand = listed + holds_before.get(k).copied().unwrap_or(0);
+                    if demand == 0 || reported_now.contains(k) {
+                        continue;
+                    }
+                    match r.excused.get(k) {
+                        Some((_, site)) if r.unexcused.get(k).copied().unwrap_or(0) == 0 => {
+                            if !quiet {
+                                rep.hit(&format!("collector.gc.removed_chunk_unreferenced_by.{site}"));
+                            }
+                            if listed > 0 {
+                                let class = format!("tensor_blob.{site}/live_chunk_collected");
+                                vio(rp!(), &class, "gc() removed a chunk that an existing artifact lists: the artifact's reference had been dropped by this collector (full_gc removed / repair reset the record while the writer of the artifact was open)", input());
+                                fail(&mut out, "violation", &class);
+                            }
+                        }
+                        _ => {
+                            let class = "tensor_blob.gc/referenced_chunk_collected_sequentially";
+                            vio(rp!(), class, "sequential history: incremental gc() removed a chunk that an open writer had written or that a finished artifact lists", input());
+                            fail(&mut out, "violation", class);
+                        }
+                    }
+                }
+            }
+            // the consequence the known findings name: a finished artifact lists a chunk it holds no reference on
+            for (k, (_, site)) in r.excused.clone() {
+                if refs_after.get(&k).copied().unwrap_or(0) < occ_after.get(&k).copied().unwrap_or(0) && !r.unexcused.contains_key(&k) {
+                    let class = format!("tensor_blob.{site}/live_chunk_collected");
+                    vio(rp!(), &class, "a finished artifact lists a chunk whose record is gone or holds fewer references than listings: this collector removed / reset the record while the artifact's writer was open (the writer's references are invisible to it)", input());
+                    fail(&mut out, "violation", &class);
+                }
+            }
+        }
+        if let Some((ix, bytes)) = finished_now.take() {
+            let id = r.ids[ix].clone();
+            if !r.damaged && bo(r.blob.get(&id)).ok().as_ref() != Some(&bytes) {
+                let class = r.unreadable_class(&id, "tensor_blob.writer/finished_artifact_unreadable");
+                vio(rp!(), &class, "an artifact whose streaming writer stayed open across other operations finished successfully but cannot be read back", input());
+                fail(&mut out, "violation", &class);
+                r.expect.insert(ix, None);
+            } else {
+                wrote_now = Some((ix, bytes));
+            }
+        }
         if let Some((ix, bytes)) = wrote_now {
             out.wrote = true;
             // O1: read returns written (one call or streamed)
@@ -797,37 +949,6 @@ fn run_case(m: &mut Model, rep: &mut Report, stream: &str, chunk: usize, max: Op
             }
             r.expect.insert(ix, Some(bytes));
         }
-        let present_after: BTreeSet<String> = r.ts.scan(CHUNK_PREFIX).into_iter().collect();
-        if let Some(site) = collector {
-            // O2: a collector removes only chunks no existing artifact references
-            for k in present_before.difference(&present_after) {
-                if occ_before.get(k).copied().unwrap_or(0) > 0 && !r.damaged {
-                    let class = format!("tensor_blob.{site}/live_chunk_collected");
-                    vio(rp!(), &class, "collector removed a chunk that an existing artifact lists", input());
-                    fail(&mut out, "violation", &class);
-                }
-            }
-            // remember which open writers just lost stored chunks (reported if the artifact ends up unreadable)
-            let lost: Vec<(u32, bool)> = r
-                .writers
-                .iter()
-                .map(|(w, ow)| {
-                    (*w, r.inflight_keys(&ow.bytes).iter().any(|k| {
-                        let refs_now = r.ts.get(k).ok().and_then(|t| t_int(&t, "_refs"));
-                        present_before.contains(k) && (!present_after.contains(k) || refs_now < refs_before.get(k).copied())
-                    }))
-                })
-                .collect();
-            for (w, l) in lost {
-                if l {
-                    r.writers.get_mut(&w).unwrap().lost_to.insert(site);
-                    r.tainted.get_or_insert(site);
-                    if !quiet {
-                        rep.hit(&format!("collector.{site}.removed_open_writer_chunk"));
-                    }
-                }
-            }
-        }
         if !r.damaged {
             // O1 over time / delete_preserves_others / gc keeps live data: every live artifact still reads back
             for (ix, e) in r.expect.clone() {
@@ -836,13 +957,20 @@ fn run_case(m: &mut Model, rep: &mut Report, stream: &str, chunk: usize, max: Op
                 match e {
                     Some(bytes) => {
                         if back.as_ref().ok() != Some(&bytes) {
-                            let class = match collector {
-                                Some(site) => format!("tensor_blob.{site}/live_chunk_collected"),
+                            let fallback = match collector {
+                                Some("gc") => "tensor_blob.gc/referenced_chunk_collected_sequentially".to_string(),
+                                Some(site) => format!("tensor_blob.{site}/live_artifact_unreadable"),
                                 None => format!("tensor_blob.{tag}/other_artifact_damaged"),
                             };
+                            let class = r.unreadable_class(&id, &fallback);
                             vio(rp!(), &class, "an artifact that was not deleted no longer reads back as written", input());
                             fail(&mut out, "violation", &class);
                             r.expect.insert(ix, None);
+                            if class != fallback {
+                                // the known finding, with its stated cause in this trace: that the reader, verify() and
+                                // check_chunks_exist() fail on the same missing chunk is the same finding, not a new one
+                                continue;
+                            }
                         }
                         // O1 through the streaming reader: read(buf) with a buffer size that varies with the step
                         if (i + ix) % 3 == 0 {
@@ -866,7 +994,7 @@ fn run_case(m: &mut Model, rep: &mut Report, stream: &str, chunk: usize, max: Op
                     None => {}
                 }
             }
-            // O3: identical content stored once; O6: refs >= occurrences (== without abandoned/open writers)
+            // O3: identical content stored once; O6: refs == occurrences when no writer was ever abandoned / left open
             let occ = occurrences(&r.ts);
             let mut seen: BTreeSet<Vec<u8>> = BTreeSet::new();
             for k in &present_after {
@@ -878,14 +1006,8 @@ fn run_case(m: &mut Model, rep: &mut Report, stream: &str, chunk: usize, max: Op
                     }
                     let refs = t_int(&rec, "_refs").unwrap_or(-1);
                     let o = occ.get(k).copied().unwrap_or(0);
-                    if refs < o {
-                        let class = match r.tainted {
-                            Some(site) => format!("tensor_blob.{site}/live_chunk_collected"),
-                            None => "tensor_blob.refs/below_occurrences".to_string(),
-                        };
-                        vio(rp!(), &class, "a chunk's refcount is below the number of times live artifacts list it (with a collector site: after that collector removed a chunk an open writer had stored, the finished artifact lists a chunk it holds no reference on)", input());
-                        fail(&mut out, "violation", &class);
-                    } else if refs != o && !r.slack {
+                    // (refs below listings + writer holds: the reference accounting above)
+                    if refs != o && !r.slack {
                         vio(rp!(), "tensor_blob.refs/not_equal_occurrences", "refcount differs from occurrences although no writer was abandoned", input());
                         fail(&mut out, "violation", "tensor_blob.refs/not_equal_occurrences");
                     }
@@ -1165,13 +1287,95 @@ fn gen_seq(r: &mut Rng, c: usize, len: usize, writers: bool, damage: bool, api: 
     ops
 }
 
+/// Writers that STAY OPEN across deletes and incremental gc cycles of the content they deduplicate against: a few
+/// artifacts from a small block pool, one to three open writers fed blocks of the same pool (dedup hits, repeats),
+/// then deletes / gc (every age, partial batches) / more writes / puts in any order, finish or drop, read back.
+/// full_gc / repair (the known findings against open writers) only now and then.
+fn gen_open_writers(r: &mut Rng, c: usize, len: usize) -> Vec<Op> {
+    let p = pool(r, c);
+    let mut ops = Vec::new();
+    let mut made: u32 = 0;
+    let mut live: Vec<u32> = vec![];
+    let mut open: Vec<u32> = vec![];
+    let mut next_w = 0u32;
+    let blocks = |r: &mut Rng, n: usize| -> Vec<u8> {
+        let mut d = Vec::new();
+        for _ in 0..n {
+            d.extend_from_slice(&p.blocks[r.below(p.blocks.len() as u64) as usize]);
+        }
+        d
+    };
+    for _ in 0..1 + r.below(3) {
+        let n = 1 + r.below(3) as usize;
+        let mut d = blocks(r, n);
+        if r.chance(1, 2) {
+            d.extend_from_slice(&p.tails[r.below(p.tails.len() as u64) as usize]);
+        }
+        ops.push(Op::Put(d));
+        live.push(made);
+        made += 1;
+    }
+    while ops.len() < len {
+        let op = match r.below(100) {
+            0..=11 if open.len() < 3 => {
+                let w = next_w;
+                next_w += 1;
+                open.push(w);
+                Op::WOpen(w)
+            }
+            0..=33 if !open.is_empty() => {
+                // whole blocks (dedup hits), sometimes cut so that a chunk straddles two writes
+                let n = 1 + r.below(3) as usize;
+                let mut d = blocks(r, n);
+                if c > 1 && r.chance(1, 3) {
+                    d.truncate(d.len() - 1 - r.below(c as u64 - 1) as usize);
+                }
+                Op::WWrite(*r.pick(&open), d)
+            }
+            34..=53 if !live.is_empty() => {
+                let i = r.below(live.len() as u64) as usize;
+                Op::Delete(live.remove(i))
+            }
+            54..=69 => Op::Gc { back: *r.pick(&[0, 0, 0, 1, 3]), age: r.below(3) },
+            70..=74 => Op::GcBatch { back: 0, b: 1 + r.below(4) as usize },
+            75..=82 if !open.is_empty() => {
+                let i = r.below(open.len() as u64) as usize;
+                live.push(made);
+                made += 1;
+                Op::WFinish(open.remove(i))
+            }
+            83..=85 if !open.is_empty() => {
+                let i = r.below(open.len() as u64) as usize;
+                Op::WDrop(open.remove(i))
+            }
+            86..=91 => {
+                let n = 1 + r.below(2) as usize;
+                live.push(made);
+                made += 1;
+                Op::Put(blocks(r, n))
+            }
+            92..=93 => Op::FullGc,
+            94 => Op::Repair,
+            95..=96 if made > 0 => Op::CExist(r.below(made as u64) as u32),
+            _ if made > 0 => Op::Get(r.below(made as u64) as u32),
+            _ => Op::Stats,
+        };
+        ops.push(op);
+    }
+    for w in open {
+        ops.push(Op::WFinish(w));
+    }
+    ops.push(Op::Gc { back: 0, age: 0 });
+    ops
+}
+
 fn run_stream(m: &mut Model, rep: &mut Report, r: &mut Rng, stream: &str, n: u64, writers: bool, damage: bool, api: bool) {
     let mut reported: BTreeSet<String> = BTreeSet::new();
     for _ in 0..n {
         let c = *r.pick(&[1usize, 2, 3, 4, 4, 5, 8]);
         let max = if r.chance(1, 6) { Some(c * (1 + r.below(4) as usize)) } else { None };
         let len = 4 + r.below(if damage { 14 } else { 28 }) as usize;
-        let ops = gen_seq(r, c, len, writers, damage, api);
+        let ops = if stream == "open-writers" { gen_open_writers(r, c, len.max(8)) } else { gen_seq(r, c, len, writers, damage, api) };
         let out = run_case(m, rep, stream, c, max, &ops, false);
         let key = out.lines.join(";");
         rep.case(stream, if out.wrote && out.changed { Some(&key) } else { None });
@@ -1199,7 +1403,40 @@ fn run_stream(m: &mut Model, rep: &mut Report, r: &mut Rng, stream: &str, n: u64
 
 fn directed(m: &mut Model, rep: &mut Report) {
     let b = |x: u8, n: usize| vec![x; n];
+    let gc_now = Op::Gc { back: 0, age: 0 }; // every record stamped up to this step is old enough
     let cases: Vec<(&str, usize, Option<usize>, Vec<Op>)> = vec![
+        // ---- a writer that stays open while the artifacts it deduplicates against are deleted and collected.
+        // The reference a writer takes on an EXISTING chunk at write time is the only thing that keeps the chunk
+        // through delete + incremental gc (Props: open_writer_chunks_survive_gc,
+        // finished_artifact_readable_after_any_sequential_history; deferred_refs_writer_loses_chunk_witness).
+        // a0 = [1,2][3,4][5]; the writer stores [1,2] [3,4] (both dedup hits) in odd pieces and stays open; a0 deleted;
+        // gc; the writer writes the tail and finishes; read back, verify, per-chunk existence; delete; full collection.
+        ("open-writer-dedup-delete-gc-finish", 2, None, vec![
+            Op::Put(vec![1, 2, 3, 4, 5]), Op::WOpen(0), Op::WWrite(0, vec![1]), Op::WWrite(0, vec![2, 3, 4]), Op::Delete(0), gc_now.clone(),
+            Op::WWrite(0, vec![5]), Op::WFinish(0), Op::CExist(1), Op::Get(1), Op::Verify(1), Op::Stats, Op::Delete(1), Op::FullGc, Op::Stats,
+        ]),
+        // control: the same without a collection while the writer is open, gc after finish
+        ("open-writer-dedup-delete-finish-gc", 2, None, vec![
+            Op::Put(vec![1, 2, 3, 4, 5]), Op::WOpen(0), Op::WWrite(0, vec![1, 2, 3, 4]), Op::Delete(0), Op::WWrite(0, vec![5]), Op::WFinish(0),
+            gc_now.clone(), Op::CExist(1), Op::Get(1), Op::Verify(1), Op::Delete(1), gc_now.clone(), Op::Stats,
+        ]),
+        // control: gc before the delete and again after finish
+        ("open-writer-dedup-gc-delete-finish-gc", 2, None, vec![
+            Op::Put(vec![1, 2, 3, 4, 5]), Op::WOpen(0), Op::WWrite(0, vec![1, 2, 3, 4]), gc_now.clone(), Op::Delete(0), Op::WWrite(0, vec![5]), Op::WFinish(0),
+            gc_now.clone(), Op::Get(1), Op::Verify(1),
+        ]),
+        // two shared chunks, one new chunk, a partially shared second artifact: a0 = [1,2][3,4][5,6][7], a1 = [3,4][9,9];
+        // the writer stores [1,2] [3,4] [8,8]; a0 deleted, gc (takes [5,6] [7] only); a1 deleted, gc (takes [9,9] only)
+        ("open-writer-two-shared-chunks-partial-artifact", 2, None, vec![
+            Op::Put(vec![1, 2, 3, 4, 5, 6, 7]), Op::Put(vec![3, 4, 9, 9]), Op::WOpen(0), Op::WWrite(0, vec![1, 2, 3]), Op::WWrite(0, vec![4, 8, 8]),
+            Op::Delete(0), gc_now.clone(), Op::Get(1), Op::Delete(1), Op::GcBatch { back: 0, b: 9 }, Op::Stats, Op::WWrite(0, vec![7]), Op::WFinish(0),
+            Op::CExist(2), Op::Get(2), Op::Verify(2), gc_now.clone(), Op::Get(2),
+        ]),
+        // the same chunk twice in one writer and once in a second writer that is dropped; the chunk starts as an old orphan
+        ("open-writers-repeated-and-dropped", 2, None, vec![
+            Op::Put(vec![1, 2]), Op::WOpen(0), Op::WOpen(1), Op::WWrite(0, vec![1, 2, 1, 2]), Op::WWrite(1, vec![1, 2, 6]), Op::Delete(0), gc_now.clone(),
+            Op::WDrop(1), gc_now.clone(), Op::WFinish(0), Op::Get(1), Op::Verify(1), Op::Delete(1), gc_now.clone(), Op::Stats, Op::Repair, Op::Stats,
+        ]),
         ("boundaries", 4, None, vec![
             Op::Put(vec![]), Op::Put(b(1, 1)), Op::Put(b(1, 3)), Op::Put(b(1, 4)), Op::Put(b(1, 5)), Op::Put(b(1, 41)),
             Op::Stream(vec![]), Op::Stream(vec![vec![], vec![]]), Op::Stream(vec![b(1, 1), b(1, 2), b(1, 1), b(1, 1)]),
@@ -1299,6 +1536,69 @@ fn chunker_stream(m: &mut Model, rep: &mut Report, r: &mut Rng, n: u64) {
 
 // ---------------------------------------------------------------- real threads (oracle only)
 
+/// The operations of one round of the threads stream executed ONE AFTER THE OTHER on a fresh store (two serial orders:
+/// writers, deleters, collector — and deleters, collector, writers), with the oracles of the round and its sequential
+/// continuation.  The known findings of that stream are about overlapping refcount updates of real threads; a round
+/// whose operations already fail serially does not show that cause and is reported under a class of its own.
+fn threads_serial_control(c: usize, shared: &[u8], nthreads: usize, npre: usize, with_gc: bool, with_full: bool) -> Option<String> {
+    for order in 0..2 {
+        let ts = TensorStore::new();
+        let b0 = bo(BlobStore::new(ts.clone(), cfg(c, None).with_gc_min_age(Duration::from_secs(0)))).unwrap();
+        let pre: Vec<String> = (0..npre).map(|_| bo(b0.put("p", shared, PutOptions::default())).unwrap()).collect();
+        let age = |ts: &TensorStore| {
+            for k in ts.scan(CHUNK_PREFIX) {
+                let mut rec = ts.get(&k).unwrap();
+                rec.set("_created", TensorValue::Scalar(ScalarValue::Int(1)));
+                ts.put(&k, rec).unwrap();
+            }
+        };
+        age(&ts);
+        let mut kept: Vec<String> = Vec::new();
+        let writers = |kept: &mut Vec<String>| {
+            for _ in 0..nthreads {
+                if let Ok(id) = bo(b0.put("w", shared, PutOptions::default())) {
+                    kept.push(id);
+                }
+            }
+        };
+        let rest = || {
+            for id in &pre {
+                let _ = bo(b0.delete(id));
+            }
+            for _ in 0..3 {
+                if with_full {
+                    let _ = bo(b0.full_gc());
+                } else if with_gc {
+                    let _ = bo(b0.gc());
+                }
+            }
+        };
+        if order == 0 {
+            writers(&mut kept);
+            rest();
+        } else {
+            rest();
+            writers(&mut kept);
+        }
+        if kept.len() != nthreads || kept.iter().any(|id| bo(b0.get(id)).ok().as_deref() != Some(shared)) {
+            return Some(format!("serial order {order}: an artifact that was put and never deleted does not read back"));
+        }
+        let occ = occurrences(&ts);
+        if occ.iter().any(|(k, o)| ts.get(k).ok().and_then(|t| t_int(&t, "_refs")).unwrap_or(0) < *o) {
+            return Some(format!("serial order {order}: a refcount is below the number of listings"));
+        }
+        for id in kept.iter().skip(1) {
+            let _ = bo(b0.delete(id));
+        }
+        age(&ts);
+        let _ = bo(b0.gc());
+        if kept.first().map(|id| bo(b0.get(id)).ok().as_deref() != Some(shared)).unwrap_or(false) {
+            return Some(format!("serial order {order}: after deleting the other artifacts and gc() the survivor does not read back"));
+        }
+    }
+    None
+}
+
 /// 2–4 real threads put / delete artifacts with overlapping content while a collector thread runs.
 /// Nothing here is compared with the model (the schedule is not controlled); the oracles are the property itself:
 /// every artifact whose put succeeded and that nobody deleted must read back, and refs >= occurrences.
@@ -1375,6 +1675,13 @@ fn thread_stream(rep: &mut Report, r: &mut Rng, rounds: u64) {
         });
         let input = json!({"round": round, "writers": nthreads, "deleters": npre, "gc": with_gc, "full_gc": with_full, "chunks_per_artifact": nblocks, "chunk_size": c});
         rep.hit(&format!("threads.w{nthreads}.d{npre}.{}", if with_gc { "gc" } else if with_full { "full_gc" } else { "nogc" }));
+        // the same operations without concurrency: whatever fails here is not a finding about overlapping threads
+        let serial = threads_serial_control(c, &shared, nthreads, npre, with_gc, with_full);
+        if let Some(why) = &serial {
+            vio(rep, "tensor_blob.threads/round_fails_without_concurrency", &format!("the operations of a threads round, executed one after the other on a fresh store, break the round's oracle ({why})"), input.clone());
+        }
+        rep.hit(if serial.is_some() { "threads.serial_control.fails" } else { "threads.serial_control.passes" });
+        let conc_class = |known: &str| if serial.is_some() { "tensor_blob.threads/round_fails_without_concurrency".to_string() } else { known.to_string() };
         // oracle: surviving artifacts read back
         let mut bad = false;
         for id in &kept {
@@ -1385,7 +1692,7 @@ fn thread_stream(rep: &mut Report, r: &mut Rng, rounds: u64) {
         if bad {
             collected += 1;
             let site = if with_full { "full_gc" } else if with_gc { "gc" } else { "writer" };
-            vio(rep, &format!("tensor_blob.{site}/live_chunk_collected"), "real threads: an artifact whose put succeeded and that was never deleted cannot be read back after concurrent puts/deletes/collection of the same content", input.clone());
+            vio(rep, &conc_class(&format!("tensor_blob.{site}/live_chunk_collected")), "real threads: an artifact whose put succeeded and that was never deleted cannot be read back after concurrent puts/deletes/collection of the same content", input.clone());
         }
         // oracle: refs >= occurrences; a lost update is turned into a collected live chunk deterministically
         let occ = occurrences(&ts);
@@ -1403,9 +1710,9 @@ fn thread_stream(rep: &mut Report, r: &mut Rng, rounds: u64) {
             }
             let _ = bo(b0.gc());
             let survivor_ok = kept.first().map(|id| bo(b0.get(id)).ok().as_ref() == Some(&shared)).unwrap_or(true);
-            vio(rep, "tensor_blob.refs/lost_update", "real threads: concurrent put/delete of identical content left a refcount below the number of live references (read-modify-write on `_refs` is not atomic)", input.clone());
+            vio(rep, &conc_class("tensor_blob.refs/lost_update"), "real threads: concurrent put/delete of identical content left a refcount below the number of live references (read-modify-write on `_refs` is not atomic)", input.clone());
             if !survivor_ok {
-                vio(rep, "tensor_blob.gc/live_chunk_collected", "after a refcount lost update, deleting the other artifacts and running gc() removed chunks of a live artifact", input);
+                vio(rep, &conc_class("tensor_blob.gc/live_chunk_collected"), "after a refcount lost update, deleting the other artifacts and running gc() removed chunks of a live artifact", input);
             }
         }
         rep.case("threads", Some(&format!("{round}")));
@@ -1510,10 +1817,11 @@ fn conc_seq_op(r: &mut Real, m: &mut Model, rep: &mut Report, stream: &str, t: u
 struct ConcOut {
     sched: Vec<usize>,
     model_line: String,
-    /// oracle failures (class, what, the damaged chunks behind the failure as hex of their content:
+    /// oracle failures (class of the oracle, what, the damaged chunks behind the failure as hex of their content:
     /// listed by an existing artifact and missing, or with `_refs` below the number of listings; empty = the
-    /// failure could not be traced to a chunk record)
-    failures: Vec<(String, String, BTreeSet<String>)>,
+    /// failure could not be traced to a chunk record; kind = "missing" | "lowrefs" after the threads,
+    /// "post-gc" | "post-full_gc" | "post-other" = newly missing after that sequential operation of the suffix)
+    failures: Vec<(String, String, BTreeSet<String>, &'static str)>,
     /// the granted `TensorStore` calls of the threads (thread, label), in order
     trace: Vec<(usize, String)>,
     agreed: bool,
@@ -1533,6 +1841,87 @@ fn double_decremented(case: &ConcCase, trace: &[(usize, String)]) -> BTreeMap<St
         }
     }
     by.into_iter().filter(|(_, ths)| ths.len() >= 2).map(|((a, x), _)| (x, a)).collect()
+}
+
+/// Chunks (hex of content) on whose record the visits of two DIFFERENT threads overlapped in this trace with a write
+/// inside: a visit = the consecutive calls one thread makes on one chunk record for one step of its operation
+/// (writer `e [p | g [p]]`, deleter `g [p]`, gc_cycle / full_gc `g [d]`); overlap = another thread's `p:` / `d:` of the
+/// same record falls strictly between the first and the last call of a visit.  This is the stated cause of
+/// tensor_blob.refs/lost_update (two read-modify-writes of `_refs` overlapped) and of tensor_blob.gc/live_chunk_collected
+/// (its consequence, or a gc_cycle's read-then-delete overlapped a put of that chunk).  Without such an overlap the calls
+/// on that record were serial, and a damaged record is not filed under those findings.
+fn overlapped(trace: &[(usize, String)]) -> BTreeSet<String> {
+    struct Visit {
+        th: usize,
+        x: String,
+        first: usize,
+        last: usize,
+    }
+    let chunk_call = |l: &str| -> Option<(String, String)> {
+        l.split_once(':').filter(|(k, _)| matches!(*k, "e" | "g" | "p" | "d")).map(|(k, x)| (k.to_string(), x.to_string()))
+    };
+    let mut cur: HashMap<usize, Visit> = HashMap::new();
+    let mut visits: Vec<Visit> = Vec::new();
+    for (pos, (th, l)) in trace.iter().enumerate() {
+        match chunk_call(l) {
+            None => {
+                if let Some(v) = cur.remove(th) {
+                    visits.push(v);
+                }
+            }
+            Some((kind, x)) => {
+                let cont = kind != "e" && cur.get(th).map(|v| v.x == x).unwrap_or(false);
+                if cont {
+                    cur.get_mut(th).unwrap().last = pos;
+                } else {
+                    if let Some(v) = cur.remove(th) {
+                        visits.push(v);
+                    }
+                    cur.insert(*th, Visit { th: *th, x, first: pos, last: pos });
+                }
+                if kind == "p" || kind == "d" {
+                    visits.push(cur.remove(th).unwrap());
+                }
+            }
+        }
+    }
+    visits.extend(cur.into_values());
+    let writes: Vec<(usize, usize, String)> = trace
+        .iter()
+        .enumerate()
+        .filter_map(|(pos, (th, l))| chunk_call(l).filter(|(k, _)| k == "p" || k == "d").map(|(_, x)| (pos, *th, x)))
+        .collect();
+    visits
+        .iter()
+        .filter(|v| v.first < v.last && writes.iter().any(|(p, th, x)| *th != v.th && *x == v.x && v.first < *p && *p < v.last))
+        .map(|v| v.x.clone())
+        .collect()
+}
+
+/// Chunks a full_gc THREAD deleted (`d:`) although a writer thread that stores that chunk had not yet put its metadata
+/// record when the full_gc scanned the metadata (`sm`): the stated cause of tensor_blob.full_gc/live_chunk_collected.
+fn full_gc_removed_unfinished(case: &ConcCase, trace: &[(usize, String)]) -> BTreeSet<String> {
+    let mut out = BTreeSet::new();
+    for (f, sp) in case.threads.iter().enumerate() {
+        if !matches!(sp, TSpec::FullGc) {
+            continue;
+        }
+        let Some(sm) = trace.iter().position(|(th, l)| *th == f && l == "sm") else { continue };
+        for (_, l) in trace.iter().filter(|(th, l)| *th == f && l.starts_with("d:")) {
+            let x = &l[2..];
+            let open_writer = case.threads.iter().enumerate().any(|(w, wsp)| match wsp {
+                TSpec::Put(d) => {
+                    d.chunks(case.chunk).any(|ch| hex(ch) == x)
+                        && trace.iter().position(|(th, l)| *th == w && l.starts_with("pm:")).map(|pm| pm > sm).unwrap_or(true)
+                }
+                _ => false,
+            });
+            if open_writer {
+                out.insert(x.to_string());
+            }
+        }
+    }
+    out
 }
 
 /// Run one concurrent case: sequential prefix, real threads under the scheduler (the yield trace is the
@@ -1701,7 +2090,7 @@ fn run_conc(m: &mut Model, rep: &mut Report, stream: &str, case: &ConcCase, rng:
         rep.hit(&format!("conc.call.{}.{}", match &case.threads[*th] { TSpec::Put(_) => "writer", TSpec::Del(_) => "deleter", TSpec::Touch(_) => "updater", TSpec::Gc => "gc", TSpec::FullGc => "full_gc" }, l.split(':').next().unwrap_or("?")));
     }
     // ---- oracles: the property on the real outputs
-    let mut failures: Vec<(String, String, BTreeSet<String>)> = Vec::new();
+    let mut failures: Vec<(String, String, BTreeSet<String>, &'static str)> = Vec::new();
     // chunks listed by an existing artifact that are missing or hold fewer references than listings
     let damaged = |r: &Real| -> BTreeSet<String> {
         occurrences(&r.ts)
@@ -1754,7 +2143,7 @@ fn run_conc(m: &mut Model, rep: &mut Report, stream: &str, case: &ConcCase, rng:
         }
     }
     if !survivors_ok(&r) {
-        failures.push((site.to_string(), "an artifact that exists and that no thread deleted cannot be read back after the interleaving".to_string(), missing(&r)));
+        failures.push((site.to_string(), "an artifact that exists and that no thread deleted cannot be read back after the interleaving".to_string(), missing(&r), "missing"));
     }
     let low_refs = |r: &Real| -> bool {
         occurrences(&r.ts).iter().any(|(k, o)| r.ts.get(k).ok().and_then(|t| t_int(&t, "_refs")).unwrap_or(0) < *o)
@@ -1762,23 +2151,41 @@ fn run_conc(m: &mut Model, rep: &mut Report, stream: &str, case: &ConcCase, rng:
     if low_refs(&r) && resurrected.is_empty() {
         // without a writer and with distinct deleters a refcount can only end up too HIGH (a lost decrement)
         let class = if proved_safe { "tensor_blob.conc/refs_below_occurrences_without_writer" } else { "tensor_blob.refs/lost_update" };
-        failures.push((class.to_string(), "after the interleaving a chunk's refcount is below the number of times existing artifacts list it".to_string(), damaged(&r)));
+        failures.push((class.to_string(), "after the interleaving a chunk's refcount is below the number of times existing artifacts list it".to_string(), damaged(&r), "lowrefs"));
     }
-    // ---- sequential suffix, then every surviving artifact again
+    // ---- sequential suffix: after every operation of it, the chunks of never-deleted artifacts that have just gone
+    let missing_live = |r: &Real| -> BTreeSet<String> {
+        let mut out = BTreeSet::new();
+        for (ix, e) in r.expect.iter() {
+            if e.is_some() {
+                let keys = r.ts.get(&format!("{META_PREFIX}{}", r.ids[*ix])).ok().and_then(|t| t_ptrs(&t, "_chunks")).unwrap_or_default();
+                out.extend(keys.iter().filter(|k| !r.ts.exists(k)).map(|k| r.known.get(k).map(|d| hex(d)).unwrap_or_else(|| format!("?{k}"))));
+            }
+        }
+        out
+    };
     let mut t2 = T_CONC;
+    let mut gone = missing_live(&r);
+    let ok_before_post = survivors_ok(&r);
     for op in &case.post {
         t2 += 1;
         agreed &= conc_seq_op(&mut r, m, rep, stream, t2, op, &input);
+        let now = missing_live(&r);
+        let newly: BTreeSet<String> = now.difference(&gone).cloned().collect();
+        if !newly.is_empty() {
+            let (class, kind): (&str, &'static str) = match op {
+                _ if proved_safe => ("tensor_blob.conc/collector_damaged_artifact_next_to_deleters_only", "post-other"),
+                Op::Gc { .. } => ("tensor_blob.gc/live_chunk_collected", "post-gc"),
+                // a sequential full_gc() with no writer open recounts from the metadata: it can never take a listed chunk
+                Op::FullGc => ("tensor_blob.full_gc/listed_chunk_collected_without_open_writer", "post-full_gc"),
+                _ => ("tensor_blob.conc/chunk_lost_by_sequential_suffix_operation", "post-other"),
+            };
+            failures.push((class.to_string(), "after the interleaving and a later sequential operation an artifact that was never deleted lists a chunk that has just been removed".to_string(), newly, kind));
+        }
+        gone = now;
     }
-    if !case.post.is_empty() && !survivors_ok(&r) {
-        let post_site = if proved_safe {
-            "tensor_blob.conc/collector_damaged_artifact_next_to_deleters_only"
-        } else if case.post.iter().any(|o| matches!(o, Op::FullGc)) {
-            "tensor_blob.full_gc/live_chunk_collected"
-        } else {
-            "tensor_blob.gc/live_chunk_collected"
-        };
-        failures.push((post_site.to_string(), "after the interleaving and a later sequential collection an artifact that was never deleted cannot be read back".to_string(), missing(&r)));
+    if !case.post.is_empty() && ok_before_post && !survivors_ok(&r) && missing_live(&r).is_empty() {
+        failures.push(("tensor_blob.conc/survivor_unreadable_after_suffix".to_string(), "after the sequential suffix an artifact that was never deleted cannot be read back although none of its chunks is missing".to_string(), BTreeSet::new(), "post-other"));
     }
     if !resurrected.is_empty() {
         let unreadable: Vec<usize> = resurrected.iter().copied().filter(|ix| bo(r.blob.get(&r.ids[*ix])).is_err()).collect();
@@ -1794,28 +2201,72 @@ fn run_conc(m: &mut Model, rep: &mut Report, stream: &str, case: &ConcCase, rng:
 }
 
 fn report_conc(rep: &mut Report, stream: &str, name: Option<&str>, case: &ConcCase, out: &ConcOut) {
-    // Known finding tensor_blob.delete/double_decrement: a failure is filed under it only for the damaged chunks
-    // that two deleter threads of the same artifact BOTH decremented in this very trace; whatever else is damaged
-    // (or a failure that cannot be traced to a chunk record) keeps the class of the oracle that found it.
+    // Every known finding is filed by its STATED CAUSE, read off the observed call trace, chunk by chunk:
+    //   tensor_blob.delete/double_decrement   two deleter threads of the same artifact both wrote the chunk's refcount back;
+    //   tensor_blob.full_gc/live_chunk_collected   a full_gc thread deleted the chunk while a writer thread storing it had not
+    //                                         put its metadata when the full_gc scanned the metadata;
+    //   tensor_blob.refs/lost_update          `_refs` below the listings AND two threads' visits to that record overlapped;
+    //   tensor_blob.gc/live_chunk_collected   the chunk is gone, a gc_cycle took it (a gc thread's `d:` or the gc() of the
+    //                                         sequential suffix) AND two threads' visits to that record overlapped.
+    // A damaged chunk with none of these causes in the trace (serial access to its record), or a failure that cannot be
+    // traced to a chunk record, gets a class of its own; the classes of theorem-covered mixes (`tensor_blob.conc/...`) and of
+    // a sequential full_gc() taking a listed chunk are never re-filed.
     let dd = double_decremented(case, &out.trace);
+    let ov = overlapped(&out.trace);
+    let fg = full_gc_removed_unfinished(case, &out.trace);
+    let gc_deleted: BTreeSet<String> = out
+        .trace
+        .iter()
+        .filter(|(th, l)| matches!(case.threads.get(*th), Some(TSpec::Gc)) && l.starts_with("d:"))
+        .map(|(_, l)| l[2..].to_string())
+        .collect();
     let mut classes: Vec<String> = Vec::new();
-    for (class, what, dmg) in &out.failures {
-        let by_dd: Vec<&String> = dmg.iter().filter(|x| dd.contains_key(*x)).collect();
-        let rest: Vec<&String> = dmg.iter().filter(|x| !dd.contains_key(*x)).collect();
-        if !by_dd.is_empty() {
-            let arts: BTreeSet<u32> = by_dd.iter().map(|x| dd[*x]).collect();
-            let w = format!(
-                "{what} (oracle class {class}): chunk(s) {} decremented by two delete() calls of the same artifact a{} that both read its metadata record before either removed it (Lean: concurrent_double_delete_witness)",
-                by_dd.iter().map(|x| x.as_str()).collect::<Vec<_>>().join(","),
-                arts.iter().map(|a| a.to_string()).collect::<Vec<_>>().join(",a")
-            );
-            vio(rep, DOUBLE_DECREMENT, &w, conc_json(case, &out.sched));
-            rep.hit("conc.double_decrement.reproduced");
-            classes.push(DOUBLE_DECREMENT.to_string());
-        }
-        if !rest.is_empty() || dmg.is_empty() {
+    for (class, what, dmg, kind) in &out.failures {
+        if class.starts_with("tensor_blob.conc/") || *kind == "post-full_gc" || *kind == "post-other" {
             vio(rep, class, what, conc_json(case, &out.sched));
             classes.push(class.clone());
+            continue;
+        }
+        if dmg.is_empty() {
+            let c = "tensor_blob.conc/failure_not_traced_to_a_chunk";
+            vio(rep, c, &format!("{what} (oracle class {class}); no listed chunk is missing or short of references"), conc_json(case, &out.sched));
+            classes.push(c.to_string());
+            continue;
+        }
+        let mut by_class: BTreeMap<String, Vec<&String>> = BTreeMap::new();
+        for x in dmg {
+            let c = if dd.contains_key(x) {
+                DOUBLE_DECREMENT.to_string()
+            } else if fg.contains(x) {
+                "tensor_blob.full_gc/live_chunk_collected".to_string()
+            } else if ov.contains(x) && *kind == "lowrefs" {
+                "tensor_blob.refs/lost_update".to_string()
+            } else if ov.contains(x) && (*kind == "post-gc" || gc_deleted.contains(x)) {
+                "tensor_blob.gc/live_chunk_collected".to_string()
+            } else {
+                match *kind {
+                    "post-gc" => "tensor_blob.gc/referenced_chunk_collected_sequentially".to_string(),
+                    "lowrefs" => "tensor_blob.refs/below_listings_without_overlapping_update".to_string(),
+                    _ => "tensor_blob.conc/chunk_lost_without_overlapping_update".to_string(),
+                }
+            };
+            by_class.entry(c).or_default().push(x);
+        }
+        for (c, xs) in by_class {
+            let chunks = xs.iter().map(|x| x.as_str()).collect::<Vec<_>>().join(",");
+            let w = if c == DOUBLE_DECREMENT {
+                rep.hit("conc.double_decrement.reproduced");
+                let arts: BTreeSet<u32> = xs.iter().map(|x| dd[*x]).collect();
+                format!(
+                    "{what} (oracle class {class}): chunk(s) {chunks} decremented by two delete() calls of the same artifact a{} that both read its metadata record before either removed it (Lean: concurrent_double_delete_witness)",
+                    arts.iter().map(|a| a.to_string()).collect::<Vec<_>>().join(",a")
+                )
+            } else {
+                format!("{what} (oracle class {class}, {kind}): chunk(s) {chunks}")
+            };
+            rep.hit(&format!("conc.cause.{}", c.trim_start_matches("tensor_blob.")));
+            vio(rep, &c, &w, conc_json(case, &out.sched));
+            classes.push(c);
         }
     }
     if !dd.is_empty() {
@@ -1823,6 +2274,7 @@ fn report_conc(rep: &mut Report, stream: &str, name: Option<&str>, case: &ConcCa
     }
     rep.case(stream, Some(&out.model_line));
     if let Some(n) = name {
+        classes.sort();
         classes.dedup();
         let verdict = if !out.agreed { "disagree".to_string() } else if classes.is_empty() { "pass".to_string() } else { classes.join("+") };
         rep.hit(&format!("conc.directed.{n}.{verdict}"));
@@ -1981,7 +2433,8 @@ fn main() {
     conc_directed(&mut m, &mut rep, &mut root.fork("conc-directed"));
     chunker_stream(&mut m, &mut rep, &mut root.fork("chunker"), 1500 * scale);
     run_stream(&mut m, &mut rep, &mut root.fork("seq"), "seq", 1200 * scale, false, false, false);
-    run_stream(&mut m, &mut rep, &mut root.fork("writers"), "writers", 600 * scale, true, false, false);
+    run_stream(&mut m, &mut rep, &mut root.fork("writers"), "writers", 450 * scale, true, false, false);
+    run_stream(&mut m, &mut rep, &mut root.fork("open-writers"), "open-writers", 300 * scale, true, false, false);
     run_stream(&mut m, &mut rep, &mut root.fork("damage"), "damage", 400 * scale, false, true, false);
     run_stream(&mut m, &mut rep, &mut root.fork("api"), "api", 350 * scale, false, false, true);
     run_stream(&mut m, &mut rep, &mut root.fork("api-damage"), "api-damage", 150 * scale, false, true, true);
